@@ -33,6 +33,14 @@ def setup_paths(repo):
 def load_all():
     import vlib
 
+    try:  # nanoemoji's modules read absl flags at call time
+        from absl import flags
+
+        if not flags.FLAGS.is_parsed():
+            flags.FLAGS(["verif"])
+    except Exception:  # noqa: BLE001
+        pass
+
     mods = sorted(os.path.basename(p)[:-3] for p in glob.glob(os.path.join(HERE, "contracts", "c_*.py")))
     for m in mods:
         importlib.import_module(m)
@@ -197,7 +205,13 @@ def to_jsonable(v):
 
     if isinstance(v, vlib.OpaqueToken):
         return {"__opaque__": v.tag, "id": v.ident}
-    return {"__repr__": repr(v)}
+    try:
+        import base64
+        import pickle
+
+        return {"__pickle__": base64.b64encode(pickle.dumps(v)).decode(), "repr": short(v, 200)}
+    except Exception:  # noqa: BLE001
+        return {"__repr__": repr(v)}
 
 
 def bounded(args):
@@ -249,7 +263,7 @@ def bounded(args):
                 samples.append({"args": short(argv, 400), "outcome": outcome})
             for clause, detail in fails:
                 if len(entry["failures"]) < 5:
-                    entry["failures"].append({"clause": clause, "detail": detail, "args": to_jsonable(argv), "args_repr": short(argv, 1000), "outcome": outcome})
+                    entry["failures"].append({"clause": clause, "detail": detail, "args": {k_: to_jsonable(v_) for k_, v_ in argv.items()}, "args_repr": short(argv, 1000), "outcome": outcome})
                 else:
                     entry.setdefault("more_failures", 0)
                     entry["more_failures"] += 1
